@@ -202,6 +202,10 @@ func (c *SchemaCtx) IssueFromUnknownError(err error) *ZogIssue {
 	if !ok {
 		return c.Issue().SetError(err)
 	}
+	// an issue built outside a schema (a provider factory's decode error) does not know the node it belongs to
+	if zerr.Dtype == "" {
+		zerr.Dtype = c.DType
+	}
 	return zerr
 }
 
